@@ -331,8 +331,199 @@ def translate(repo):
     return [("DuneVerif/Gen/C17.lean", "\n".join(out) + "\n")]
 
 
+# ---------------------------------------------------------------------------------------------------------
+# round_t / trunc_t: the rounding-style dispatch (towardZero / towardInf) and the vector loops  ->  Gen/C17RT.lean
+# ---------------------------------------------------------------------------------------------------------
+RSTYLES = ("downward", "upward", "towardZero", "towardInf")
+ZERO_TESTS = {("val", ">", "T(0)"): "gt", ("T(0)", "<", "val"): "gt", ("val", ">=", "T(0)"): "ge", ("T(0)", "<=", "val"): "ge",
+              ("val", "<", "T(0)"): "lt", ("T(0)", ">", "val"): "lt", ("val", "<=", "T(0)"): "le", ("T(0)", ">=", "val"): "le"}
+
+
+def _squash(x):
+    return re.sub(r"\s+", "", x)
+
+
+def _struct_body(src, head_re, what):
+    """body of the unique struct whose head matches head_re (brace matching)"""
+    ms = list(re.finditer(head_re + r"\s*\{", src))
+    if len(ms) != 1:
+        raise TranslateError("%s not found exactly once (%d)" % (what, len(ms)))
+    i = ms[0].end()
+    depth, j = 1, i
+    while depth:
+        if j >= len(src):
+            raise TranslateError("%s: unbalanced braces" % what)
+        depth += {"{": 1, "}": -1}.get(src[j], 0)
+        j += 1
+    return src[i:j - 1]
+
+
+def _fn_body(body, fn, argtype_re, what):
+    m = re.search(r"static\s+[\w:<>, ]+?\s+%s\s*\(\s*const\s+%s\s*&\s*val\s*,\s*typename\s+EpsilonType<T>::Type\s+epsilon\s*=\s*"
+                  r"\(?\s*DefaultEpsilon<T,\s*cstyle>::value\(\)\s*\)?\s*\)\s*\{(.*)\}\s*$" % (fn, argtype_re), body, flags=re.S)
+    if not m:
+        raise TranslateError("%s: signature of %s(val, epsilon) changed" % (what, fn))
+    return m.group(1)
+
+
+def _callee(expr, fam, what):
+    """`fam_t<I, T, cstyle, STYLE>::fam(val, epsilon)` -> STYLE"""
+    m = re.fullmatch(r"%s_t<I,T,cstyle,(\w+)>::%s\(val,epsilon\)" % (fam, fam), _squash(expr))
+    if not m or m.group(1) not in RSTYLES:
+        raise TranslateError("%s: branch is not a call %s_t<I, T, cstyle, STYLE>::%s(val, epsilon): %r" % (what, fam, fam, expr))
+    return m.group(1)
+
+
+def dispatch(src, fam, rs):
+    what = "%s_t<I,T,cstyle,%s>" % (fam, rs)
+    body = _struct_body(src, r"template\s*<\s*class\s+I\s*,\s*class\s+T\s*,\s*CmpStyle\s+cstyle\s*>\s*struct\s+%s_t\s*<\s*I\s*,\s*T\s*,\s*cstyle\s*,\s*%s\s*>" % (fam, rs), what)
+    code = _fn_body(body, fam, "T", what).strip()
+    m = re.fullmatch(r"if\s*\((.*?)\)\s*\{?\s*return\s+(.*?);\s*\}?\s*else\s*\{?\s*return\s+(.*?);\s*\}?", code, flags=re.S)
+    if not m:
+        m = re.fullmatch(r"return\s+(.*?)\s*\?\s*(.*?)\s*(?<!:):(?!:)\s*(.*?);", code, flags=re.S)   # `:` but not `::`
+        if m and re.fullmatch(r"\((.*)\)", m.group(1).strip(), flags=re.S):
+            m = re.fullmatch(r"return\s+\(\s*(.*?)\s*\)\s*\?\s*(.*?)\s*(?<!:):(?!:)\s*(.*?);", code, flags=re.S)
+    if not m:
+        raise TranslateError("%s: body is not `if(TEST) return A; else return B;` / `return TEST ? A : B;`: %r" % (what, code))
+    c = re.fullmatch(r"(val|T\(0\))(>=|<=|>|<)(val|T\(0\))", _squash(m.group(1)))
+    if not c or (c.group(1), c.group(2), c.group(3)) not in ZERO_TESTS:
+        raise TranslateError("%s: test %r is not a comparison of val with T(0)" % (what, m.group(1)))
+    return ZERO_TESTS[(c.group(1), c.group(2), c.group(3))], _callee(m.group(2), fam, what), _callee(m.group(3), fam, what), re.sub(r"\s+", " ", code)
+
+
+def vec_loop(src, fam, kind):
+    """the helper class with the component loop; returns (lean definition, quoted source)"""
+    if kind == "std_vec":
+        head = r"template\s*<\s*class\s+I\s*,\s*class\s+T\s*,\s*CmpStyle\s+cstyle\s*,\s*RoundingStyle\s+rstyle\s*>\s*struct\s+%s_t_std_vec" % fam
+        argt = r"std::vector<\s*T\s*>"
+    else:
+        head = r"template\s*<\s*class\s+I\s*,\s*class\s+T\s*,\s*int\s+n\s*,\s*CmpStyle\s+cstyle\s*,\s*RoundingStyle\s+rstyle\s*>\s*struct\s+%s_t_fvec" % fam
+        argt = r"(?:Dune::)?FieldVector<\s*T\s*,\s*n\s*>"
+    what = "%s_t_%s" % (fam, kind)
+    body = _struct_body(src, head, what)
+    code = _fn_body(body, fam, argt, what)
+    m = re.search(r"for\s*\(", code)
+    if not m:
+        raise TranslateError("%s: no for loop" % what)
+    pre = [_squash(x) for x in code[:m.start()].split(";") if x.strip()]
+    loop = re.fullmatch(r"for\s*\(\s*(?:unsigned\s+int|int|unsigned|std::size_t|size_t)\s+i\s*=\s*(\d+)\s*;\s*i\s*(<|<=)\s*([^;]+?)\s*;\s*(\+\+i|i\+\+)\s*\)"
+                        r"\s*\{?\s*res\s*\[\s*i\s*\]\s*=\s*(.*?);\s*\}?\s*return\s+res\s*;", code[m.start():].strip(), flags=re.S)
+    if not loop:
+        raise TranslateError("%s: loop is not `for(i = LO; i < HI; ++i) res[i] = CALL; return res;`: %r" % (what, code[m.start():]))
+    lo, rel, hi, _, call = loop.groups()
+    # declarations before the loop: the result has as many entries as the argument
+    size_names = {"val.size()"}
+    if kind == "std_vec":
+        decl_ok = False
+        for d in pre:
+            dm = re.fullmatch(r"(?:const)?(?:unsignedint|unsigned|auto|std::size_t|size_t)(\w+)=val\.size\(\)", d)
+            if dm:
+                size_names.add(dm.group(1))
+                continue
+            rm = re.fullmatch(r"std::vector<I>res\((.+)\)", d)
+            if rm and rm.group(1) in size_names:
+                decl_ok = True
+                continue
+            raise TranslateError("%s: unknown statement before the loop: %r" % (what, d))
+        if not decl_ok:
+            raise TranslateError("%s: `std::vector<I> res(size)` not found" % what)
+    else:
+        size_names = {"n"}
+        if pre != ["Dune::FieldVector<I,n>res"] and pre != ["FieldVector<I,n>res"]:
+            raise TranslateError("%s: statements before the loop changed: %r" % (what, pre))
+    hs = _squash(hi)
+    hm = re.fullmatch(r"(.+?)(?:([-+])(\d+))?", hs)
+    if hs in size_names:
+        hi_lean = "val.length"
+    elif hm and hm.group(1) in size_names and hm.group(2):
+        hi_lean = "(val.length %s %s)" % (hm.group(2), hm.group(3))
+    else:
+        raise TranslateError("%s: loop bound %r is not the size of the argument (+- a constant)" % (what, hi))
+    if rel == "<=":
+        hi_lean = "(%s + 1)" % hi_lean
+    cm = re.fullmatch(r"(round|trunc)_t<I,T,(\w+),(\w+)>::(round|trunc)\(val\[i\],(\w+)\)", _squash(call))
+    if not cm or cm.group(1) != cm.group(4):
+        raise TranslateError("%s: loop body is not `res[i] = X_t<I, T, CS, RS>::X(val[i], EPS)`: %r" % (what, call))
+    callee, cs, rs, _, eps = cm.groups()
+    cs_lean = "cstyle" if cs == "cstyle" else (".%s" % cs if cs in STYLES else None)
+    rs_lean = "rstyle" if rs == "rstyle" else (".%s" % rs if rs in RSTYLES else None)
+    if cs_lean is None or rs_lean is None or eps != "epsilon":
+        raise TranslateError("%s: styles / epsilon passed to the component call changed: %r" % (what, call))
+    lean = ("def %s_t_%s (round_t trunc_t : Style → RStyle → K → K → Int) (cstyle : Style) (rstyle : RStyle) (val : List K) (epsilon : K) : List Int :=\n"
+            "  fillLoop val.length %s %s (fun i => %s_t %s %s (val.getD i 0) epsilon)" % (fam, kind, lo, hi_lean, callee, cs_lean, rs_lean))
+    return lean, re.sub(r"\s+", " ", code.strip())
+
+
+def vec_specialisations(src, fam, kind):
+    """round_t<std::vector<I>, std::vector<T>, cstyle, RS> : round_t_std_vec<I, T, cstyle, RS'> {}  ->  RS -> RS'"""
+    tab = {}
+    for rs in RSTYLES:
+        if kind == "std_vec":
+            pat = (r"template\s*<\s*class\s+I\s*,\s*class\s+T\s*,\s*CmpStyle\s+cstyle\s*>\s*struct\s+%s_t\s*<\s*std::vector<\s*I\s*>\s*,\s*std::vector<\s*T\s*>\s*,\s*cstyle\s*,\s*%s\s*>"
+                   r"\s*:\s*(?:public\s+)?(\w+)\s*<\s*I\s*,\s*T\s*,\s*cstyle\s*,\s*(\w+)\s*>\s*\{\s*\}\s*;" % (fam, rs))
+        else:
+            pat = (r"template\s*<\s*class\s+I\s*,\s*class\s+T\s*,\s*int\s+n\s*,\s*CmpStyle\s+cstyle\s*>\s*struct\s+%s_t\s*<\s*(?:Dune::)?FieldVector<\s*I\s*,\s*n\s*>\s*,\s*(?:Dune::)?FieldVector<\s*T\s*,\s*n\s*>\s*,\s*cstyle\s*,\s*%s\s*>"
+                   r"\s*:\s*(?:public\s+)?(\w+)\s*<\s*I\s*,\s*T\s*,\s*n\s*,\s*cstyle\s*,\s*(\w+)\s*>\s*\{\s*\}\s*;" % (fam, rs))
+        ms = re.findall(pat, src)
+        if len(ms) != 1:
+            raise TranslateError("%s_t<%s of I, %s of T, cstyle, %s> : helper<...> {} not found exactly once (the vector overloads of round/trunc "
+                                 "cannot be instantiated without it, see fixes/C17_vector_round_trunc.patch)" % (fam, kind, kind, rs))
+        helper, to = ms[0]
+        m = re.fullmatch(r"(round|trunc)_t_(std_vec|fvec)", helper)
+        if not m or to not in RSTYLES:
+            raise TranslateError("%s_t vector specialisation for %s derives from %s<.., %s>" % (fam, rs, helper, to))
+        tab[rs] = (helper, to)
+    return tab
+
+
+def translate_rt(repo):
+    """the rounding-style dispatch of round_t / trunc_t  ->  Gen/C17RT.lean"""
+    src = strip_comments(open(os.path.join(repo, "dune/common/float_cmp.cc")).read())
+    out = ["-- GENERATED by tools/translators/tr_c17.py from dune/common/float_cmp.cc (round_t / trunc_t) -- do not edit",
+           "import DuneVerif.Model.C17",
+           "namespace DV.C17.GenRT",
+           "open DV.C17",
+           "",
+           "/-! the specialisations of `round_t` / `trunc_t` that only dispatch on the sign of the argument -/"]
+    for fam in ("round", "trunc"):
+        for rs in ("towardZero", "towardInf"):
+            test, a, b, code = dispatch(src, fam, rs)
+            out.append("/-- `%s_t<I, T, cstyle, %s>::%s` : `%s` -/" % (fam, rs, fam, code))
+            out.append("def %s_%s : Dispatch := ⟨.%s, .%s, .%s⟩" % (fam, rs, test, a, b))
+    out += ["", "end DV.C17.GenRT"]
+    return [("DuneVerif/Gen/C17RT.lean", "\n".join(out) + "\n")]
+
+
+def translate_vec(repo):
+    """the component loops of the vector overloads of round / trunc  ->  Gen/C17Vec.lean"""
+    src = strip_comments(open(os.path.join(repo, "dune/common/float_cmp.cc")).read())
+    out = ["-- GENERATED by tools/translators/tr_c17.py from dune/common/float_cmp.cc (vector overloads of round_t / trunc_t) -- do not edit",
+           "import DuneVerif.Model.C17",
+           "namespace DV.C17.GenVec",
+           "open DV.C17",
+           "",
+           "set_option linter.unusedVariables false",
+           "variable {K : Type} [Zero K]", "",
+           "/-! the component loops of the vector overloads and the specialisations of `round_t` / `trunc_t` that derive from them -/"]
+    for fam in ("round", "trunc"):
+        for kind in ("std_vec", "fvec"):
+            lean, code = vec_loop(src, fam, kind)
+            out.append("/-- `%s_t_%s<…>::%s` : `%s` -/" % (fam, kind, fam, code))
+            out.append(lean)
+            tab = vec_specialisations(src, fam, kind)
+            out.append("/-- `%s_t<%s, cstyle, rstyle>` for the four rounding styles: the helper each specialisation derives from -/" % (fam, "std::vector<I>, std::vector<T>" if kind == "std_vec" else "FieldVector<I,n>, FieldVector<T,n>"))
+            out.append("def %s_%s (round_t trunc_t : Style → RStyle → K → K → Int) (cstyle : Style) : RStyle → List K → K → List Int" % (fam, kind))
+            for rs in RSTYLES:
+                helper, to = tab[rs]
+                out.append("  | .%s => %s round_t trunc_t cstyle .%s" % (rs, helper, to))
+            out.append("")
+    out += ["end DV.C17.GenVec"]
+    return [("DuneVerif/Gen/C17Vec.lean", "\n".join(out) + "\n")]
+
+
 if __name__ == "__main__":
     import sys
-    for p, c in translate(sys.argv[1] if len(sys.argv) > 1 else "/repo"):
+    repo = sys.argv[1] if len(sys.argv) > 1 else "/repo"
+    for p, c in translate(repo) + translate_rt(repo) + translate_vec(repo):
         print("-----", p)
         print(c)
